@@ -19,7 +19,7 @@ import (
 func init() {
 	ev.Register(&ev.Spec{
 		ID: "C15", Level: "fault_enumeration",
-		Rule:    "for each base sequence (hand-written ones covering attach-with-path, multi-step walks, fid replacement so that Close runs inside a request, create-rebinding, rename with live fids in the renamed subtree so that Renamed runs, unlink/remove, xattr walk/create/clunk, plus PRNG sequences) a fault-free run counts the backend calls c, then the sequence is re-run c times with the fault at call index 1..c - exhaustive over indices - once as an error (errno kinds rotate: linux.Errno, syscall.Errno, os.Err* sentinels, %w-wrapped, *fs.PathError, errors.Join, opaque) and once as a panic. The faulted request must be answered Rlerror (the error's errno / EFAULT), the session model keeps judging every later reply after an error, the fid table is probed after every step (EBADF iff unbound), a second connection must still be served, and after an error every handle is closed exactly once when the connections end. Non-trivial: the fault fired inside a request; distinct by (sequence, fault index, kind).",
+		Rule:    "for each base sequence (hand-written ones covering attach-with-path, multi-step walks, fid replacement so that Close runs inside a request, create-rebinding, rename with live fids in the renamed subtree so that Renamed runs, unlink/remove, xattr walk/create/clunk, plus PRNG sequences) a fault-free run counts the backend calls c, then the sequence is re-run c times with the fault at call index 1..c - exhaustive over indices - once as an error (errno kinds rotate: linux.Errno, syscall.Errno, os.Err* sentinels, %w-wrapped, *fs.PathError, errors.Join, opaque) and once as a panic. The faulted request must be answered Rlerror (the error's errno / EFAULT), the session model keeps judging every later reply after an error, the fid table is probed after every step (EBADF iff unbound), a second connection must still be served, and after an error every handle is closed exactly once when the connections end. Hand-written sequences include a rename fanning out over four held Files (after a panic in one Renamed no other File may be left at its old path) and renames onto an entry somebody holds a fid on (a refused rename leaves that fid what it was). Non-trivial: the fault fired inside a request; distinct by (sequence, fault index, kind).",
 		Assume:  []string{"faults are applied before any backend mutation, so a faulted call has no backend-side effect", "after a panic: every request gets a reply on this and another connection, no later request is answered EFAULT (the one fault has fired), every bound fid can still be cloned and Tremove unbinds it, a Tclunk / Tremove in which the panic fired has unbound its fid, and when the connections have ended every File has been closed exactly once and none was used after its Close", "faults in Close during connection teardown are not injected (an unrecovered panic there would end the process; outside 'any request')"},
 		Shards:  shards(8, 16),
 		Timeout: timeout(8*time.Minute, 60*time.Minute),
